@@ -25,7 +25,7 @@ RULE = (
 )
 ASSUMPTIONS = [
     "float64, CPU; identities are evaluated on observed voltages and the generated per-compartment parameters only",
-    "tolerances are rounding bounds derived per case: delta = (1e3*n*eps*cond + 1e-9)*max|v| + 1e-8 mV with cond of the scheme's "
+    "tolerances are rounding bounds derived per case: delta = (max(1e3*n*eps, 1e-11)*cond + 1e-9)*max|v| + 1e-8 mV with cond of the scheme's "
     "matrix from R1 (cases with cond > 1e12 are filtered and counted); charge residual <= sum_i (C_i + dt G_i) * delta",
     "reciprocity tolerance 1e-7 * max|D| + delta-level floor",
     "a backend that raises is a counted refusal",
@@ -85,7 +85,7 @@ def _geom_class(spec):
 def _delta(cab, solver, dt, v0, got, gm_mS, const):
     be, cond = cab.backward_error(solver, dt, v0, got, gm_mS, const)
     scale = max(float(np.max(np.abs(got))), float(np.max(np.abs(v0))), 1.0)
-    return (1e3 * cab.N * np.finfo(float).eps * cond + 1e-9) * scale + 1e-8, cond
+    return (c01.bwd_unit(cab.N) * cond + 1e-9) * scale + 1e-8, cond
 
 
 def judge(spec, tier="quick"):
@@ -179,7 +179,7 @@ def judge(spec, tier="quick"):
                 if cond > 1e12:
                     out.filtered += 1
                     continue
-                if not dev <= (1e3 * N * np.finfo(float).eps * cond + 1e-9) * abs(E0) + 1e-8:
+                if not dev <= (c01.bwd_unit(N) * cond + 1e-9) * abs(E0) + 1e-8:
                     out.violate(f"uniform:{solver}:{backend}", f"{solver}/{backend} dt={dt}: uniform model at E={E0} moved by {dev:.3e} mV; cells={spec['morph']['cells']}")
     # (a') charge balance including synaptic currents (networks with conductance-based synapses, bwd_euler)
     if spec.get("syn"):
@@ -208,7 +208,7 @@ def judge(spec, tier="quick"):
                 out.evals += N * (N - 1) // 2
                 asym = np.abs(D - D.T)
                 scale = float(np.max(np.abs(D)))
-                tol = 1e-7 * scale + (1e3 * N * np.finfo(float).eps * cond + 1e-9) * max(float(np.max(np.abs(v0))), 1.0) * 10
+                tol = 1e-7 * scale + (c01.bwd_unit(N) * cond + 1e-9) * max(float(np.max(np.abs(v0))), 1.0) * 10
                 if branched and big:
                     out.nontrivial_keys.append(f"{struct_key}|{decade}|{solver}|{backend}|reciprocity")
                 if float(np.max(asym)) > tol:
@@ -265,7 +265,7 @@ def _judge_synaptic_charge(spec, out, cab, G, C, I, e, v0, dt, N, struct_key, de
         rhs = float(dt * (np.sum(I) - np.sum(G * (v1 - e)) - isyn))
         gsyn_mS = sum(sy["g"] for sy in spec["syn"]) * 1e-3
         scale = max(float(np.max(np.abs(v1))), float(np.max(np.abs(v0))), 1.0)
-        delta = (1e3 * N * np.finfo(float).eps * 1e6 + 1e-9) * scale + 1e-8
+        delta = (c01.bwd_unit(N) * 1e6 + 1e-9) * scale + 1e-8
         tol = float(np.sum(C + dt * G) + dt * gsyn_mS) * delta + 1e-12 * (abs(lhs) + abs(rhs))
         out.evals += 1
         out.classes.append("synaptic charge balance")
